@@ -23,7 +23,8 @@ LEVEL_TEXT = ("Differential simulation: one seeded history (received lines over 
               "tapes) is executed under both versions of every ordered pair (10 pairs) and outcome class + node_id/"
               "child_id, yielded fields, write lists with success flags and registry snapshots must be equal at every "
               "step. Every single-line history over all internal/stream type numbers of the older protocol x 3 "
-              "registry states is swept in the thorough tier.")
+              "registry states is swept in the thorough tier. Sensor and value types are drawn from the whole range the "
+              "older protocol defines.")
 LEVEL_NOTE = ("Across 1.x->2.x the comparison of a history ends at the first line that the older version rejects for an "
               "unknown node/child or that is a gateway-ready message (the stated precondition, decided on the run). Version-setting messages (node-0 presentation, I_VERSION) are excluded: they would equalise the pair. "
               "Across 1.x->2.x histories reference no unknown node/child and contain no gateway-ready; heartbeat "
@@ -193,6 +194,11 @@ def _run_one(version, scn):
         w.close()
 
 
+def _heartbeat(text: str) -> bool:
+    f = text.split(";")
+    return len(f) >= 6 and f[2].strip() == "3" and f[4].strip() == "22"
+
+
 def _gateway_ready(text: str) -> bool:
     f = text.split(";")
     return len(f) >= 6 and f[2].strip() == "3" and f[4].strip() == "14"
@@ -210,6 +216,7 @@ def run(scn) -> RunResult:
     res.faults.update(fa)
     res.ops = 2 * len(scn["ops"])
     cross = old in ("1.4", "1.5") and new in G.PROTOS_2X
+    hb_exception = old in ("2.0", "2.1") and new == "2.2"
     res.probes["pair_cross" if cross else "pair_2x" if old in G.PROTOS_2X else "pair_1x"] += 1
     interesting = False
     for i, (x, y) in enumerate(zip(a, b)):
@@ -222,6 +229,12 @@ def run(scn) -> RunResult:
             # occurs": decided here, on the reference run, and not by the generator's prediction of the registry
             # (which id an id request hands out is not specified; a shrunk history may have lost a presentation)
             res.probes["cross_precondition_ended"] += 1
+            break
+        if hb_exception and op[0] == "line" and _heartbeat(op[1]) and x["kind"] == "ok" and y["kind"] == "ok":
+            # the stated exception: a heartbeat response that both versions handle (known node, usable payload) marks
+            # the node as sleeping and releases its commands in 2.0/2.1 but not in 2.2 - from here on the two runs
+            # legitimately differ.  Decided on the run: which nodes are known is not the generator's to predict.
+            res.probes["heartbeat_exception_ended_comparison"] += 1
             break
         if x["writes"]:
             res.probes["step_with_write"] += 1
